@@ -342,14 +342,14 @@ theorem offsets_match_code :
     (∀ v, offs16Unsigned = some v → offsOf ⟨false, true, false⟩ = v) := by
   decide
 
-/-- the amplification values the API lets through keep both shifts non-negative
-(`x >> negative` would be undefined behaviour) -/
 /-- the guard of `libxmp_mixer_prepare` assigns the bound it tests (vacuous if not recognised) -/
 theorem cap_assigned_is_guard :
     (∀ v, ticksizeCapGuard = some v → (ticksizeCap : Int) = v) ∧
     (∀ v, ticksizeCapAssigned = some v → (ticksizeCap : Int) = v) := by
   decide
 
+/-- the amplification values the API lets through keep both shifts non-negative
+(`x >> negative` would be undefined behaviour) -/
 theorem amp_range_safe : ∀ v, ampMax = some v → v ≤ (downmixShift : Int) := by
   decide
 
